@@ -149,6 +149,8 @@ def run_property(P, tier, seed, replay=None):
     tr_broken = translate.run()
     for b in tr_broken:
         broken.append("translator:" + b)
+    for nt in getattr(translate.run, "notes", []):
+        notes.append("translator: " + nt)
 
     # 2. proofs
     obligations = []
